@@ -53,8 +53,11 @@
 //!                                      `len() - 2` wraps and the search does not return; a debug build panics: batch/panic)
 //!   C12_destination_y_only_accepted    C12 (and C06): corpus_coordinate_pairs under vertex_rtree / edge_rtree, and the
 //!                                      generated `bad_coordinates` queries — matcher/half-coordinate-pair-accepted
-//!   C06_cache_key_round_half_cast, C06_cache_stores_adjusted_rate   NOT yet specific: absorbed into / next to the known
-//!                                      finding cache/order-dependent (a fine-precision cache run is still to be added)
+//!   C06_cache_key_round_half_cast     C06: fine_cache_runs (key_precisions [2, 2], flat and gently descending links at the
+//!                                      same speed, pairwise different documented keys) — cache/order-dependent-without-key-collision
+//!   C06_cache_stores_adjusted_rate    C06: the same runs (real_world_energy_adjustment 1.166 is applied again on a hit)
+//!   cache/order-dependent-without-key-collision   a batch depends on its order under a cache whose documented keys
+//!                                      (round half away from zero of value * 10^p) are pairwise different
 use crate::ctx::Ctx;
 use crate::jsonproto::{dec, enc, hex, unhex};
 use crate::rng::Rng;
@@ -2177,6 +2180,8 @@ struct FxExtra {
     /// posted speeds (km/h) to draw from, and the grades (decimal) of a grade table to write and configure
     speeds: Option<Vec<f64>>,
     grades: Option<Vec<f64>>,
+    /// the energy vehicle's `grade_unit` (the unit the model file was trained in) instead of "decimal"
+    model_grade_unit: Option<&'static str>,
 }
 
 fn make_fixture_ext(root: &Path, id: usize, rng: &mut Rng, label: &str, plugins: Vec<PluginSpec>, traversal: Traversal, edge_oriented: bool, solution_limit: Option<usize>, parallelism: usize, persist: bool, extra: &FxExtra) -> Option<(Fixture, bool)> {
@@ -2201,6 +2206,10 @@ fn make_fixture_ext(root: &Path, id: usize, rng: &mut Rng, label: &str, plugins:
     }
     if let Some(a) = extra.adjustment {
         toml = toml.replacen("real_world_energy_adjustment = 1.166\n", &format!("real_world_energy_adjustment = {:?}\n", a), 1);
+    }
+    if let Some(u) = extra.model_grade_unit {
+        assert!(toml.contains("\ngrade_unit = \"decimal\"\n"), "fixture {}: no vehicle grade unit to replace", label);
+        toml = toml.replacen("\ngrade_unit = \"decimal\"\n", &format!("\ngrade_unit = \"{}\"\n", u), 1);
     }
     if let Some(gs) = &extra.grades {
         // one grade per edge, drawn from the list; `grade_table_grade_unit = "decimal"` is already configured
@@ -2365,6 +2374,80 @@ fn cache_demo(ctx: &mut Ctx, fx: &Fixture, control: Option<&Fixture>, rng: &mut 
                 return;
             }
         }
+    }
+}
+
+/// the DOCUMENTED cache key of `FloatCachePolicy` ("the key is rounded to the specified precision"): each input times
+/// `10^precision`, rounded to the nearest integer, halves away from zero — computed here, not by the code under test
+fn documented_key(precs: &[i32], inputs: &[f64]) -> Vec<i64> {
+    inputs.iter().zip(precs.iter()).map(|(v, p)| (v * 10f64.powi(*p)).round() as i64).collect()
+}
+
+/// The cache with a FINE key precision: key_precisions [2, 2] over links whose (speed, grade) inputs have pairwise
+/// different documented keys — two posted speeds that are far apart, grades -0.02 / -0.01 / 0 / +0.01 (flat and
+/// gently descending links at the same speed).  No two different inputs share a cache cell, so the cache must be
+/// transparent and a batch must not depend on its order: the same batch is offered forwards, backwards and rotated to
+/// fresh processes (cold cache each, parallelism 1).  A difference is NOT the known finding `cache/order-dependent`
+/// (which needs a key precision coarser than the model's resolution): key `cache/order-dependent-without-key-collision`.
+/// Seeded changes C06_cache_key_round_half_cast (`(v * m + 0.5) as i64`: a scaled grade of -1 gets the flat road's key
+/// 0) and C06_cache_stores_adjusted_rate (a hit returns the rate already multiplied by real_world_energy_adjustment
+/// = 1.166, which is then applied again).
+fn fine_cache_runs(ctx: &mut Ctx, root: &Path, id: usize, rng: &mut Rng) {
+    let speeds = vec![31.3, 52.7];
+    let grades = vec![-0.02, -0.01, 0.0, 0.01];
+    let precs = [2, 2];
+    let mut keys = HashSet::new();
+    for s in &speeds {
+        for g in &grades {
+            keys.insert(documented_key(&precs, &[*s, *g]));
+        }
+    }
+    if keys.len() != speeds.len() * grades.len() {
+        // the demand below rests on it
+        ctx.count("fine_cache_documented_keys_collide");
+        return;
+    }
+    let extra = FxExtra {
+        cache_line: Some("float_cache_policy = { cache_size = 1000, key_precisions = [2, 2] }\n".to_string()),
+        speeds: Some(speeds),
+        grades: Some(grades),
+        // Toyota_Camry.bin splits the grade at half-integers of a PERCENT value (-12 … 12): read as "decimal" — as the
+        // other energy fixtures do — every grade of a road is the same input to it and no cache defect could show;
+        // here the grade table is in decimal (-0.01: scaled key -1 at precision 2) and the model reads percent, so the
+        // four grades have four different rates at either speed (0.0434 / 0.0439 / 0.0397 / 0.0407 gal/mile at 31.3 km/h)
+        model_grade_unit: Some("percent"),
+        ..Default::default()
+    };
+    let Some((fx, _)) = make_fixture_ext(root, id, rng, "energy_fine_cache", vec![], Traversal::Energy { cache: true }, false, None, 1, true, &extra) else { return };
+    for attempt in 0..4 {
+        let gens: Vec<GenQ> = (0..6).map(|_| valid_query(&fx, rng)).collect();
+        let batch: Vec<Value> = gens.iter().map(|g| g.q.clone()).collect();
+        let n = batch.len();
+        let ident: Vec<usize> = (0..n).collect();
+        let rev: Vec<usize> = ident.iter().rev().copied().collect();
+        let rot: Vec<usize> = (0..n).map(|i| (i + n / 2) % n).collect();
+        let cfg = run_cfg_value(Some(1), Some(true));
+        let Some(idx) = ctx.begin() else { continue };
+        let a = forked(&fx, &batch, &[Job { order: ident.clone(), run_cfg: cfg.clone(), pool: 1 }], false, 120);
+        let fmt = fmt_table(&fx, &batch);
+        ctx.emit(idx, case_line(&fx, &a, &batch, &ident, Some(1), true, &fmt), out_line(&a.jobs[0]));
+        ctx.count("corpus_fine_cache");
+        let RunOut::Ok(ra) = &a.jobs[0] else {
+            ctx.fail(idx, "batch/panic", format!("energy model with float_cache_policy key_precisions [2, 2]: the batch did not return responses: {}", clip(&Value::Array(batch.clone()).to_string())));
+            continue;
+        };
+        for (name, order) in [("in reverse order", rev), ("rotated by half", rot)] {
+            let b = forked(&fx, &batch, &[Job { order: order.clone(), run_cfg: cfg.clone(), pool: 1 }], false, 120);
+            let RunOut::Ok(rb) = &b.jobs[0] else { continue };
+            if sorted(ra.clone()) != sorted(rb.clone()) {
+                let diff = ra.iter().find(|r| !rb.contains(r)).cloned().unwrap_or_default();
+                let other = rb.iter().find(|r| !ra.contains(r)).cloned().unwrap_or_default();
+                ctx.fail(idx, "cache/order-dependent-without-key-collision", format!("energy model with float_cache_policy key_precisions [2, 2] over links at 31.3 / 52.7 km/h with grades -0.02 / -0.01 / 0 / 0.01 (pairwise different documented keys round(v * 100), so no two different inputs may share a cache cell): the batch {} offered {} to a fresh process (parallelism 1) returns different responses; only in the forward run: {}; only in the other run: {}", Value::Array(batch.clone()), name, clip(&decode(&diff).to_string()), clip(&decode(&other).to_string())));
+                ctx.nontrivial(&format!("fine_cache|{}", attempt));
+                return;
+            }
+        }
+        ctx.count("fine_cache_order_independent");
     }
 }
 
@@ -2637,6 +2720,8 @@ pub fn run(ctx: &mut Ctx, profile: Profile) -> &'static str {
             let control = find("grid_energy").map(|i| &fixtures[i].0);
             cache_demo(ctx, &fx, control, &mut frng);
         }
+        id += 1;
+        fine_cache_runs(ctx, &root, id, &mut frng);
     }
 
     // ---- load balancing alone ----
